@@ -4,13 +4,15 @@ from .. import hq
 
 EXPLANATION = (
     "Static rules over the typed HIR of command_line/files.rs and the Verify arm of command_line::procedures::main. "
-    "TAB-EXT: the extension->bucket match of Files::sort is extracted (string-literal patterns -> field of the result the path is pushed to) "
-    "and compared with the documented table (lp/spec/ug/po, everything else ignored); the push must be unconditional on the bucket chosen and "
-    "append (encounter order preserved). DET-3: every WalkDir::new in the crate is followed by sort_by_file_name in the same iterator chain, which "
-    "is the iterable of the bucketing loop, and the argument list is consumed in order (into_iter/map/flat_map only). TAB-ACC: each accessor "
-    "(left/right/specification/program/user_guide/proof_outline) is evaluated to (bucket, index) terms and compared with the role table. "
-    "FLOW-ROLE: in the Verify arm each task field is fed by exactly the accessor of its role through the parser of the matching node type, "
-    "the Either tags of specification() are preserved, and no other accessor is used. Decides the structural clauses for every argument list; "
+    "TAB-EXT: Files::sort is evaluated symbolically with every write into a bucket recorded (path condition, canonical loop nest, arguments): "
+    "there is exactly one, a Vec::push of the walked entry's path, conditional only on the entry being a regular file, into the bucket chosen by "
+    "the decision tree over Path::extension of that same path, which must be the documented table (lp/spec/ug/po, everything else ignored). "
+    "DET-3: the loop nest of that write is `every argument in order, then WalkDir::new(argument).sort_by_file_name()` (nested loops and map / "
+    "flat_map chains are the same nest), it is the only pass over the arguments, and WalkDir::new occurs nowhere else. TAB-ACC: each accessor "
+    "(left/right/specification/program/user_guide/proof_outline) is evaluated on every combination of bucket lengths (lists of distinct tokens) and "
+    "must yield the file of the role table. FLOW-ROLE: in the Verify arm each task field is fed (possibly through named locals) by exactly the "
+    "accessor of its role through the parser of the matching node type, the Either tags of specification() are preserved, and no other accessor is "
+    "used. The sibling-pipeline / mirrored-routing obligations of C03 are run here too (swapping the programs swaps axioms and conjectures). Decides the structural clauses for every argument list; "
     "does not decide walkdir's own behaviour.")
 UNDECIDED = ["file-system behaviour of the walkdir library (entry order inside a directory relies on its sort_by_file_name)",
              "that swapping programs swaps axioms/conjectures — decided as mirror symmetry under C03 (strong) and C02 (external)"]
